@@ -51,12 +51,12 @@ def group_of(path):
     q = re.sub(r'^softposit\[\w+\]::', '', base)
     seg = q.split('::')[0]
     g = GROUPS.get(seg)
-    if g is None:
-        return 'Core'
     if '@@' in path:   # generic instantiation: lives with the type it is instantiated at
         ta = path.split('@@')[1]
         for k, v in (('P8E0', 'P8'), ('P16E1', 'P16'), ('P32E2', 'P32')):
             if k in ta: return v
+    if g is None:
+        return 'Core'
     return g
 
 HEADER = ('set_option linter.unusedVariables false\n'
